@@ -209,6 +209,18 @@ def _gen_fitness_case(rng, multi, weights, same_times):
             "xs": [[float(rng.randrange(0, 9)), float(rng.randrange(0, 5)), float(rng.randrange(0, 5))] for _ in range(2)]}
 
 
+def gen_policy_run_case(rng, i):
+    """nlopt with a non-default selection policy: pygmo optimises the worst / a random individual and puts the
+    result in the slot of the best one, so the best individual of the *population* can get worse from one
+    evolution to the next while the island's champion (best ever) cannot — the only configuration in which
+    'champion' and 'best of the current population' differ.  Several evolutions, small maxeval."""
+    c = gen_run_case(rng, 2)
+    c.update({"algo": "nlopt", "single_parameter": False, "islands": 1 + (i % 2), "evolutions": rng.randrange(3, 7),
+              "nlopt": {"nlopt_selection": ["worst", "random"][i % 2], "replacement": "best", "maxeval": rng.randrange(3, 7)},
+              "check_simulated": False})
+    return c
+
+
 def gen_run_case(rng, i):
     algo = ["sade", "sga", "nlopt"][i % 3]
     # (a multi-readout target with fewer readouts than the simulation cannot be assembled into the result
@@ -379,6 +391,8 @@ def run_calibration(case):
         algo = {"sade": dict(type="sade", generations=2, population_size=8),
                 "sga": dict(type="sga", generations=2, population_size=6),
                 "nlopt": dict(type="nlopt", generations=1, population_size=5, maxeval=10)}[case["algo"]]
+        if case.get("nlopt"):
+            algo = {**algo, **case["nlopt"]}
         cal = Calibration(
             target_data_path=paths, fitness_function=_fitness_function(case), algorithm=Algorithm(**algo),
             parameters=_variables(single), readout=_readout(case), result_type=case["result_type"],
@@ -407,6 +421,8 @@ def run_calibration(case):
         # re-evaluate the last champions on an identically built problem
         prob = _problem(case, tmp, single=single)
         out["refit"] = [float(prob.fitness(np.array(isl[-1]))[0]) for isl in out["champion_decision"]]
+        if not case.get("check_simulated", True):
+            return out
         # the returned simulated data vs an independent exposure at the reported champion parameters
         rt = case["result_type"]
         try:
@@ -561,6 +577,8 @@ def predicate_run(case, impl):
     for isl, (fs, re) in enumerate(zip(impl["champion_fitness"], impl["refit"])):
         if not feq(fs[-1], re):
             return ("C11:champion-fitness-not-reproduced", f"island {isl}: reported champion fitness {fs[-1]!r}, re-simulating the reported decision gives {re!r}")
+    if not case.get("check_simulated", True):
+        return None
     if "load_error" in impl:
         key = "C11:resimulation-single-parameter" if case["single_parameter"] else "C11:simulated-unloadable"
         return (key, f"the returned simulated data cannot be computed ({'one calibrated parameter' if case['single_parameter'] else 'any calibration'}): "
@@ -601,6 +619,7 @@ def body(ck: common.Check):
     fcases = [gen_fitness_case(rng) for _ in range(70 if quick else 900)]
     fcases += [gen_fitness_case(rng, multi=True, weights=w) for w in ("list", "file", "list")]
     runs = [gen_run_case(rng, i) for i in range(6 if quick else 36)]
+    runs += [gen_policy_run_case(rng, i) for i in range(4 if quick else 24)]
     reqs = [{"op": "check", "dims": dims_of(c)} for c in rcases]
     reqs += [lean_fitness_request(c, x) for c in fcases for x in c["xs"]]
     answers = LeanDriver("C11").batch(reqs)
@@ -660,6 +679,8 @@ def body(ck: common.Check):
         ck.case(case, nontrivial="error" not in impl, stream="run:" + case["algo"])
         ck.count("run_single_parameter", int(case["single_parameter"]))
         ck.count("run_multi_readout", int(case["multi"]))
+        ck.count("run_nlopt_policy=" + (case["nlopt"]["nlopt_selection"] if case.get("nlopt") else "default"))
+        ck.count("run_evolutions=%d" % case["evolutions"])
         pv = predicate_run(case, impl)
         if pv:
             ck.violation(pv[0], pv[1], {"case": case, "impl": {k2: v for k2, v in impl.items() if k2 != "evaluated"}})
@@ -673,6 +694,8 @@ def body(ck: common.Check):
                "wild (None, negative, beyond the size) / undeclared, 4- and 6-value result ranges, + the two documented end-point patterns; "
                "fitness: 1-3 target/input pairs, integer data with NaNs, equal and shifted ranges, weights none / per-target list / files, "
                "abs / squared / reduced chi2, single and multi readout, pixel / signal / image; run: sade / sga / nlopt, 1-2 islands, 3 evolutions, "
+               "+ nlopt with selection worst / random and replacement best, 3-6 evolutions, maxeval 3-6 (population best != champion): champion "
+               "monotone per island and best champion = best fitness evaluated so far after every evolution; "
                "one- and three-component decision vectors; non-trivial = some range declared")
     ck.assumptions = ["a 6-value *target* range on a multi-readout target fails in the constructor with \"Dimensions {'time'} do not exist\" on the "
                       "pinned tree (dimension named readout_time); counted as noted:3d-target-range, not judged",
